@@ -75,6 +75,8 @@ def run_spec(module: str, spec: str, n: int, args: dict | None = None, tier: str
         rr = _r.Random(seed())
         asc, non = [c for c in core.SIGMA if c.isascii()], [c for c in core.SIGMA if not c.isascii()]
         tv = [t for t in tv if in_cube(t)] + ["".join(rr.choice(asc if k == "a" else non) for k in cube) for _ in range(120)]
+    if "domain_filter" in sp:
+        tv = [t for t in tv if sp["domain_filter"](t)]
     if n_inputs == 1:
         tests = [(t,) for t in tv]
     else:
@@ -114,6 +116,25 @@ def run_spec(module: str, spec: str, n: int, args: dict | None = None, tier: str
     queries += 1
     nontrivial = twin == "sat"
     # 6. the query
+    if sp.get("probe"):
+        # liveness probe of a recorded finding whose class *is* the violation condition: the solver produces a fresh
+        # witness on every run; sat + replayed -> the finding is live (or, if nothing is recorded, a violation)
+        s.add(viol)
+        r = str(s.check())
+        queries += 1
+        solver_s += time.time() - t0
+        common = dict(bounds=bounds, functions=funcs, queries=queries, solver_s=round(solver_s, 2), nontrivial=nontrivial, stubs=sp.get("stub_notes", []), cases=[f"{spec}[n={n}]"])
+        if r == "unsat":
+            return result("holds", "unsat: no input inside the bound violates it (recorded finding not live here)", **common)
+        if r != "sat":
+            return result("inconclusive", f"solver answered {r}", **common)
+        m = s.model()
+        texts = [core.decode(m, v) for v in enc.inputs]
+        bad, obs = sp["concrete_violation"](*texts)
+        if bad and known:
+            return result("violated", f"sat: fresh witness {texts!r} -> {obs!r} (recorded finding is live)", known_hits=[e["id"] for e in known], samples=[{"witness": texts, "observed": obs}], **common)
+        wit = {"what": sp["what"], "input": texts, "observed": obs, "reproduced": bool(bad), "replay_func": f"{module}:replay", "spec": spec, "spec_args": args or {}}
+        return result("violated", f"sat: witness {texts!r} -> {obs!r}", witnesses=[wit], **common)
     excl = []
     for cname in live:
         sym, _ = sp["classes"][cname]
